@@ -18,6 +18,8 @@ FT = {
     "vec": ("::std::vec::Vec<u8>", ["vec![]", "vec![2u8, 1u8]"], "all"),
     "pair": ("(u8, u8)", ["(0u8, 1u8)", "(1u8, 0u8)"], "all"),
     "f64": ("f64", ["0.5f64", "-1.0f64"], "noeq"),
+    # inherent methods named like the trait methods, behaving differently: only code that bypasses the traits reaches them
+    "sh": ("::dxrt::Sh", ["::dxrt::Sh(1)", "::dxrt::Sh(4)"], "all"),
     "T": ("T", ["1u8", "3u8"], "all"),
     "optT": ("::core::option::Option<T>", ["::core::option::Option::None", "::core::option::Option::Some(2u8)"], "all"),
     "arr": ("[u8; N]", ["[0u8, 0u8]", "[1u8, 2u8]"], "all"),
@@ -41,7 +43,7 @@ def gen_spec(rng):
     traits = close(rng.sample(ALL8, rng.randint(1, 8)))
     noeq_ok = not any(t in traits for t in ("Eq", "Ord", "Hash"))
     raw = rng.random() < 0.15
-    pool = ["u8", "i32", "string", "opt", "vec", "pair"] + (["f64"] if noeq_ok else [])
+    pool = ["u8", "i32", "string", "opt", "vec", "pair", "sh"] + (["f64"] if noeq_ok else [])
     gen_kind = rng.choice(["none", "none", "T", "T", "N", "a", "TNa"])
     if "T" in gen_kind:
         pool += ["T", "optT"]
@@ -395,7 +397,7 @@ def run(rep, tier, rng):
     rep.canary = bool(check_case(ok.meta["spec"], ev)[0])
     rep.rule = ("type definitions from a shape grammar (unit/tuple/named structs; enums with 0-5 variants of mixed kinds; 0-4 fields; "
                 "lifetime/type/const parameters with defaults and where-clauses; ?::core::marker::Sized tail observed through Box<Ty<[u8]>>; raw "
-                "identifiers for type, field and variant names; repr(C)/non_exhaustive) with random supertrait-closed subsets of the "
+                "identifiers for type, field and variant names; repr(C)/non_exhaustive; a field type whose inherent methods shadow the trait methods) with random supertrait-closed subsets of the "
                 "eight traits; the same definition is compiled once under derive_ex and once under the std derives (a std-only "
                 "control decides whether the shape is in the property's domain) and Debug ({:?}, {:#?}), clone/clone_from, default, "
                 "the ==/partial_cmp/cmp matrices over all value pairs are compared; Hash must be consistent with ==. evaluations = "
